@@ -365,6 +365,10 @@ func (e *Engine) solveAll(obls []*Obligation, workDir string, stats *SolveStats,
 							decided = true
 							if !allBackends {
 								cancel()
+							} else {
+								// thorough tier: the other back ends get a grace period to agree or disagree with the first
+								// definite answer (a disagreement is a tool error); they are not waited for beyond it
+								time.AfterFunc(8*time.Second, cancel)
 							}
 						}
 					}
